@@ -13,7 +13,8 @@ def main():
     import os
     for item in spec:
         # the file lists a build system asks for are output too (their order must be repeatable)
-        lists = dict(cfiles=os.path.join(item["outdir"], "_cfiles.txt"), ffiles=os.path.join(item["outdir"], "_ffiles.txt"))
+        lists = dict(cfiles=os.path.join(item["outdir"], "_cfiles.txt"), ffiles=os.path.join(item["outdir"], "_ffiles.txt"),
+                     write_helpers="_helpers")      # the helper dump (--write-helpers) is output too
         if "corpus" in item:
             cfg, exc, out = shroudrun.run_corpus_inproc(item["corpus"], item["outdir"], item.get("options", ()), **lists)
         else:
